@@ -582,6 +582,38 @@ def _inside_loop_over(fn, node, va) -> bool:
     return False
 
 
+def r11_callers_hand_over_the_differentiated_tensors(repo: Repo, rep):
+    R = rep.rule("R-C03-11", "helpers that evaluate a model and then a user function on {**model_out.coordinates, **inputs} (plots, animations, evaluation) hand over the SAME coordinate tensors "
+                 "the model was evaluated on: one mapping `d`, the model called on Points.from_coordinates(d), and `**d` in the merged dictionary", floor=3,
+                 why="Points.coordinates builds new views on every access: a second access gives tensors that are not part of the model output's graph, and every derivative in the plot function raises `not used in the graph`")
+    n = 0
+    for fi in repo.all_functions():
+        if ".utils." not in fi.module.name:
+            continue
+        calls = {}  # name -> argument of the call that produced it
+        for a in ast.walk(fi.node):
+            if isinstance(a, ast.Assign) and len(a.targets) == 1 and isinstance(a.targets[0], ast.Name) and isinstance(a.value, ast.Call) and len(a.value.args) == 1 and not a.value.keywords:
+                calls[a.targets[0].id] = a.value.args[0]
+        for d in ast.walk(fi.node):
+            if not (isinstance(d, ast.Dict) and sum(k is None for k in d.keys) >= 2):
+                continue
+            stars = [v for k, v in zip(d.keys, d.values) if k is None]
+            outs = [v for v in stars if isinstance(v, ast.Attribute) and v.attr == "coordinates" and isinstance(v.value, ast.Name) and v.value.id in calls]
+            if len(outs) != 1:
+                continue
+            arg = calls[outs[0].value.id]
+            rest = [v for v in stars if v is not outs[0]]
+            n += 1
+            rep.saw(fi)
+            fed = arg.args[0] if isinstance(arg, ast.Call) and dump(arg.func) in ("Points.from_coordinates",) and len(arg.args) == 1 else None
+            ok = fed is not None and any(dump(v) == dump(fed) for v in rest) and isinstance(fed, ast.Name)
+            fresh = [dump(v) for v in rest if isinstance(v, ast.Attribute) and v.attr == "coordinates"]
+            rep.check(R, ok and not fresh, fi.site(d), fi.fq, "the merged dictionary carries the mapping the model input was built from", f"model evaluated on `{dump(arg)[:60]}`, dictionary merges {[dump(v)[:40] for v in rest]}",
+                      f"model on {dump(arg)[:50]}; merged {[dump(v)[:40] for v in rest]}")
+    if n == 0:
+        rep.undecided(R, "src/torchphysics/utils", "-", "helpers that merge model output and inputs for a user function", "none found")
+
+
 def r10_gradient_join(repo: Repo, rep):
     R = rep.rule("R-C03-10", "grad joins the per-variable gradients so that row r of the result holds row r's derivatives, the variables side by side on the LAST axis - evaluated for two "
                  "variables given as flat (batch,) tensors, as (batch, d) tensors and as (functions, batch, d) tensors", floor=3,
@@ -759,6 +791,23 @@ def r6_value_free_control(repo: Repo, rep):
             elif isinstance(n, ast.comprehension):
                 tests += n.ifs
         rep.saw(fi)
+        bad = value_tests_in(tests)
+        rep.check(R, not bad, fi.site(), fi.fq, "conditions test grad_fn / shapes / argument lists only", f"value-dependent tests: {sorted(set(bad))[:3]}", f"value tests {sorted(set(bad))[:3]}")
+
+
+def control_tests(fn_node):
+    tests = []
+    for n in ast.walk(fn_node):
+        if isinstance(n, (ast.If, ast.While, ast.IfExp, ast.Assert)):
+            tests.append(n.test)
+        elif isinstance(n, ast.comprehension):
+            tests += n.ifs
+    return tests
+
+
+def value_tests_in(tests):
+    """calls inside control-flow conditions that read tensor VALUES (any / all / item / max / ..): shapes, graph structure and argument lists are not values"""
+    if True:
         bad = []
         for t in tests:
             for c in ast.walk(t):
@@ -774,7 +823,7 @@ def r6_value_free_control(repo: Repo, rep):
                     and not any(isinstance(x, ast.Attribute) and x.attr == "shape" for x in ast.walk(c.args[0]))
                 if tensor_fn or tensor_meth or builtin:
                     bad.append(dump(c)[:60])
-        rep.check(R, not bad, fi.site(), fi.fq, "conditions test grad_fn / shapes / argument lists only", f"value-dependent tests: {sorted(set(bad))[:3]}", f"value tests {sorted(set(bad))[:3]}")
+        return bad
 
 
 def r7_no_memo(repo: Repo, rep):
@@ -1000,6 +1049,7 @@ def run(repo: Repo, rep):
     r3_tables(repo, rep)
     r4_short_circuit(repo, rep)
     r10_gradient_join(repo, rep)
+    r11_callers_hand_over_the_differentiated_tensors(repo, rep)
     r5_accumulators(repo, rep)
     r6_value_free_control(repo, rep)
     r7_no_memo(repo, rep)
